@@ -88,11 +88,15 @@ LayoutIssues(c) ==
 
 ---------------------------------------------------------------------------------------------------------
 (* Struct correspondence is established, not assumed.                                                      *)
-(* Stage 1: a Python structure pairs with the C struct of the same case-insensitive name.                  *)
+(* Stage 1: a Python structure pairs with the C struct of the same name, else with the only C struct of   *)
+(*          the same case-insensitive name.                                                                *)
 (* Stage 2: otherwise with the UNIQUE not-yet-paired C struct of identical field signature (same number of *)
 (*          fields, same kinds - pointee structs seen through stage 1 - and same offsets).                 *)
 ByName(p) == {c \in CNames : CS(c).lname = PS(p).lname}
-Pair1(p)  == IF p \in PyNames /\ ByName(p) # {} THEN CHOOSE c \in ByName(p) : TRUE ELSE "?"
+Pair1(p)  == IF p \notin PyNames THEN "?"
+             ELSE IF p \in CNames THEN p                                   \* identical name wins (C has both `node` and `NODE`)
+             ELSE IF Cardinality(ByName(p)) = 1 THEN CHOOSE c \in ByName(p) : TRUE
+             ELSE "?"
 Via1(kd)  == IF kd.k = "struct" THEN [kd EXCEPT !.n = Pair1(kd.n)] ELSE kd
 Taken1    == {Pair1(p) : p \in PyNames}
 SameSignature(c, p) ==
@@ -101,11 +105,22 @@ SameSignature(c, p) ==
     /\ \A i \in DOMAIN CS(c).fields : /\ Via1(PS(p).fields[i].kind) = CS(c).fields[i].kind
                                       /\ PS(p).fields[i].off = CS(c).fields[i].off
 BySignature(p) == {c \in CNames \ Taken1 : SameSignature(c, p)}
+(* Stage 3 (only so that a permuted struct is reported as a field mismatch of the right pair rather than as  *)
+(*          "corresponds to nothing"): the unique not-yet-paired C struct with the same multiset of kinds.   *)
+SameKindsUnordered(c, p) ==
+    LET ck == [i \in DOMAIN CS(c).fields |-> CS(c).fields[i].kind]
+        pk == [i \in DOMAIN PS(p).fields |-> Via1(PS(p).fields[i].kind)]
+    IN  /\ Len(ck) = Len(pk)
+        /\ \A k \in Range(ck) \cup Range(pk) : Cardinality({i \in DOMAIN ck : ck[i] = k}) = Cardinality({i \in DOMAIN pk : pk[i] = k})
+ByKinds(p) == {c \in CNames \ Taken1 : SameKindsUnordered(c, p)}
 Pair(p) == IF p \notin PyNames THEN "?"
            ELSE IF Pair1(p) # "?" THEN Pair1(p)
            ELSE IF Cardinality(BySignature(p)) = 1 THEN CHOOSE c \in BySignature(p) : TRUE
+           ELSE IF BySignature(p) = {} /\ Cardinality(ByKinds(p)) = 1 THEN CHOOSE c \in ByKinds(p) : TRUE
            ELSE "?"
-PairedHow(p) == IF Pair1(p) # "?" THEN "name" ELSE IF Pair(p) # "?" THEN "signature" ELSE "none"
+PairedHow(p) == IF Pair1(p) # "?" THEN "name"
+                ELSE IF Cardinality(BySignature(p)) = 1 THEN "signature"
+                ELSE IF Pair(p) # "?" THEN "kinds-unordered" ELSE "none"
 
 (* a Python-side kind expressed in C names *)
 ToC(kd) == IF kd.k = "struct" THEN [kd EXCEPT !.n = Pair(kd.n)] ELSE kd
